@@ -108,6 +108,10 @@ def run(ctx):
         names = ['packer'] + ['committer%d' % i for i in range(len(scen['committers']))] + ['reader']
         if scen['second_packer']:
             names += ['packer2', 'packer3']
+        scen['reader2'] = si % 2 == 0
+        scen['pad'] = 9000 if si % 3 == 1 else 0
+        if scen['reader2']:
+            names += ['reader2']
         scen['lister'] = 2 if si % 3 == 0 else 0
         if scen['lister']:
             names += ['lister']
